@@ -191,7 +191,7 @@ def _null_test(f, cond, uses=None):
     return None
 
 
-def wipe_summaries(module, count_plain_stores=lambda f: True, sinks=None, limit=4096, mode="wipe"):
+def wipe_summaries(module, count_plain_stores=lambda f: True, sinks=None, limit=4096, mode="wipe", allocas=None):
     """Bottom-up must-wipe summaries for every defined function.
 
     A byte of a pointer parameter's pointee is "wiped" on a path if it was
@@ -205,19 +205,31 @@ def wipe_summaries(module, count_plain_stores=lambda f: True, sinks=None, limit=
     sinks = dict(WIPE_SINKS if sinks is None else sinks)
     summ = {}
     for f in module.bottom_up():
-        summ[f.name] = _wipe_function(module, f, summ, sinks, count_plain_stores(f), limit, mode)
+        summ[f.name] = _wipe_function(module, f, summ, sinks, count_plain_stores(f), limit, mode, allocas)
     return summ
 
 
-def _wipe_function(module, f, summ, sinks, plain_ok, limit, mode="wipe"):
+def _wipe_function(module, f, summ, sinks, plain_ok, limit, mode="wipe", allocas=None):
+    """allocas: optional predicate(function, alloca instruction) selecting stack
+    objects that are tracked like parameters; their must-wiped bytes at return
+    are reported under the key "a:<value id>"."""
     init = mode == "init"
     R = ptr.resolver(f)
     pidx = {p: k for k, p in enumerate(f.params) if f.param_ty[k].endswith("*")}
+    if allocas is not None:
+        for i in f.insts():
+            if i.op == "alloca" and allocas(f, i):
+                pidx[i.id] = "a:" + i.id
     S = WipeSummary()
     if not pidx:
         return S
     TOP = None
     IN = {f.blocks[0].name: {}}
+    if allocas is not None:
+        # a stack object holds nothing of interest until something is written to it
+        for i in f.insts():
+            if i.op == "alloca" and i.id in pidx:
+                IN[f.blocks[0].name][pidx[i.id]] = set(range(min(i.d.get("sz") or 0, limit)))
     OUT = {}
     order = f.rpo()
     nullgood = {}   # (block, succ) edges to skip: param known null
@@ -230,7 +242,7 @@ def _wipe_function(module, f, summ, sinks, plain_ok, limit, mode="wipe"):
                 root = pv.single()
                 c = ir.const_int(i.ops[0])
                 isz = isinstance(i.ops[0], dict) and i.ops[0].get("zero")
-                if root and root[0] == "param" and root[1] in pidx:
+                if root and root[0] in ("param", "alloca") and root[1] in pidx:
                     k = pidx[root[1]]
                     if pv.offset is not None and not pv.variable:
                         rng = range(pv.offset, pv.offset + i.d["sz"])
@@ -245,7 +257,7 @@ def _wipe_function(module, f, summ, sinks, plain_ok, limit, mode="wipe"):
                             S.maywrite[k] = True
                 elif not root and not init:
                     for r in pv.roots:
-                        if r[0] == "param" and r[1] in pidx and c is None:
+                        if r[0] in ("param", "alloca") and r[1] in pidx and c is None:
                             st[pidx[r[1]]] = set()
                             S.maywrite[pidx[r[1]]] = True
                 continue
@@ -259,7 +271,7 @@ def _wipe_function(module, f, summ, sinks, plain_ok, limit, mode="wipe"):
                 root = pv.single()
                 n = ir.const_int(i.ops[2])
                 v = ir.const_int(i.ops[1])
-                if root and root[0] == "param" and root[1] in pidx:
+                if root and root[0] in ("param", "alloca") and root[1] in pidx:
                     k = pidx[root[1]]
                     if pv.offset is not None and not pv.variable and n is not None and (v is not None or init) and n <= limit:
                         if plain_ok or init:
@@ -272,7 +284,7 @@ def _wipe_function(module, f, summ, sinks, plain_ok, limit, mode="wipe"):
                 pv = R.resolve(i.ops[0])
                 n = ir.const_int(i.ops[2])
                 for r in pv.roots:
-                    if r[0] == "param" and r[1] in pidx:
+                    if r[0] in ("param", "alloca") and r[1] in pidx:
                         k = pidx[r[1]]
                         S.maywrite[k] = True
                         if init:
@@ -289,7 +301,7 @@ def _wipe_function(module, f, summ, sinks, plain_ok, limit, mode="wipe"):
                     pv = R.resolve(i.ops[pa])
                     root = pv.single()
                     n = ir.const_int(i.ops[na])
-                    if root and root[0] == "param" and root[1] in pidx and pv.offset is not None \
+                    if root and root[0] in ("param", "alloca") and root[1] in pidx and pv.offset is not None \
                             and not pv.variable and n is not None and n <= limit:
                         st.setdefault(pidx[root[1]], set()).update(range(pv.offset, pv.offset + n))
                 continue
@@ -300,7 +312,7 @@ def _wipe_function(module, f, summ, sinks, plain_ok, limit, mode="wipe"):
                     continue
                 pv = R.resolve(a)
                 for r in pv.roots:
-                    if r[0] != "param" or r[1] not in pidx:
+                    if r[0] not in ("param", "alloca") or r[1] not in pidx:
                         continue
                     k = pidx[r[1]]
                     if cs is not None:
